@@ -26,18 +26,20 @@ StoreB == <<[s |-> "node", k |-> "root.dir", raw |-> <<Lit("p"), Esc, Pct>>]>>
 StoreC == <<V17, [s |-> "node", k |-> "root.dir", raw |-> <<Unk("HOME")>>]>>
 JustBuiltin == {Builtin}
 
-\* ---- quick: every kind of call, depth 3
-QCfgAdds == Adds({0, 2, 5}, Secs2, {"datastore.type"}, {A, NoneV}) \cup Adds({3}, {"mechanic"}, {"team.repository.dir"}, {A})
+\* ---- quick: every kind of call, depth 3, narrow alphabets (the scopes are covered by the table)
+QCfgAdds == Adds({0, 2, 5}, {"reporting"}, {"datastore.type"}, {A, NoneV}) \cup Adds({3}, {"mechanic"}, {"team.repository.dir"}, {A})
 QBaseAdds == Adds({1, 3}, Secs2, {"datastore.type"}, {B}) \cup Adds({2}, {"mechanic"}, {"team.repository.dir"}, {B, NoneV})
-QFileEdits == Edits(Secs2, {"datastore.type"}, {<<Dir, Lit("/d"), Esc>>, <<Unk("foo")>>})
-              \cup Edits({"meta"}, {"config.version"}, {<<Lit("17")>>, <<Lit("16")>>, <<Lit("abc")>>})
-QStores == {StoreA, StoreB}
+QFileEdits == Edits({"reporting"}, {"datastore.type"}, {<<Dir, Lit("/d"), Esc>>, <<Unk("foo")>>})
+              \cup Edits({"meta"}, {"config.version"}, {<<Lit("17")>>, <<Lit("16")>>})
+QStores == {StoreA}
 QAddl == {<<>>, <<"mechanic">>}
 QInitFiles == {NoFiles(Names2), [NoFiles(Names2) EXCEPT !["x"] = GoodFile, ![""] = OldFile]}
 
-\* ---- thorough: depth 4 over slightly wider alphabets
-TCfgAdds == Adds(0..5, Secs2, Keys2, {A, B, NoneV})
-TBaseAdds == Adds({1, 2, 5}, Secs2, Keys2, {B, NoneV})
+\* ---- thorough: depth 3 over wider alphabets
+TCfgAdds == Adds(0..5, Secs2, Keys2, {A, NoneV}) \cup Adds({1, 3}, Secs2, {"datastore.type"}, {B})
+TBaseAdds == Adds({1, 3}, Secs2, {"datastore.type"}, {B}) \cup Adds({2}, {"mechanic"}, {"team.repository.dir"}, {B, NoneV})
+TFileEdits == Edits(Secs2, {"datastore.type"}, {<<Lit("a")>>, <<Dir, Lit("/d"), Esc>>, <<Unk("foo")>>}) \cup VersionEdits
+TStores == {StoreA, StoreB}
 
 \* ---- table: every assignment of the five scopes of one key x three scopes of a second key of the same section
 \* (function-like: each initial state is one store, no calls)
